@@ -47,6 +47,8 @@
   comparison of the `world` suite is the backstop.
 -/
 import TypedpyModel.Lemmas.World
+import TypedpyModel.Sem.WorldDecl
+import TypedpyModel.Lemmas.WorldFootprint
 import TypedpyModel.Generated.Registries
 import TypedpyModel.Pinned.Registries
 namespace Typedpy.C15
@@ -510,5 +512,96 @@ theorem C15_statement_fails_today : ¬ C15_statement (configOf Generated.registr
   have h3 := mro_serializer_breaks_frame.2.2.1
   rw [h1, h3] at h2
   cases h2
+
+/-! ### "behaves per its own definition" as a statement about Sem/Validate results -/
+
+/-- for every interpretation of the field tags as `FieldDecl`s, every regex / hook oracle and every CONCRETE
+    keyword arguments, the `Sem/Validate` result of constructing class `c` (stored instance or exception class)
+    after any history outside the excluded region is the result after the sub-history the class depends on:
+    definitions, uses and cache fills of OTHER classes do not change it -/
+theorem construct_result_frame (cfg : Config) (hc : cfg.cachesById = true) (T : ClassId → Bool)
+    (h : List WorldOp) (hx : Excluded cfg h) (hcl : closed T h = true) (c : ClassId) (hT : T c = true)
+    (O : Oracles) (env : DeclEnv) (kw : List (String × PyVal)) :
+    (view cfg (runW cfg World.initial h) c).map (fun b => constructVal O env b kw)
+      = (view cfg (runW cfg World.initial (slice T h)) c).map (fun b => constructVal O env b kw) := by
+  rw [frame cfg hc T h hx hcl c hT]
+
+/-- … and a use of ANY class (other than an explicit serializer configuration) changes no class's
+    `Sem/Validate` construction result -/
+theorem construct_result_unchanged_by_use (cfg : Config) (hc : cfg.cachesById = true) (W : List (String × TypeId))
+    (w : World) (g : Good cfg W w) (op : WorldOp) (huse : plainUse op = true)
+    (hq : quietStep cfg w op = true) (d : ClassId)
+    (hwf : ∀ e, alookup d w.classes = some e → e.core.src.fast = true → refsCreatable e = true)
+    (O : Oracles) (env : DeclEnv) (kw : List (String × PyVal)) :
+    (view cfg (stepW cfg w op).1 d).map (fun b => constructVal O env b kw)
+      = (view cfg w d).map (fun b => constructVal O env b kw) := by
+  rw [use_changes_no_view cfg hc W w g op huse hq d hwf]
+
+
+def exEnv : DeclEnv where
+  prim := fun t => if t == 0 then some (.integer {}) else if t == 1 then some (.string none (some 3) none) else none
+  dflt := fun t => if t == 1 then some (.str "d") else none
+
+/-- non-vacuity: under today's table, after the history `hEx` (same-named classes, two user classes named `User`,
+    uses of every kind) the class `Order`#0 — fields `id: Integer`, `who: Field[User#1]`, `n: String(maxLength=3) = "d"`
+    mapped to "N" — accepts a valid argument set (storing the default), rejects an instance of the OTHER `User`
+    with TypeError, a too long string with ValueError and a missing required argument with TypeError, exactly as
+    after its own definition alone -/
+theorem construct_result_example :
+    ((view (configOf Generated.registries) (runW (configOf Generated.registries) World.initial hEx) 0).map fun b =>
+      [ (constructVal {reMatch := fun _ _ => false} exEnv b [("id", .int 3), ("who", .inst "U#1" [])]).map
+          (fun r => match r with | .ok (.inst _ attrs) => attrs.length | _ => 0),
+        (constructVal {reMatch := fun _ _ => false} exEnv b [("id", .int 3), ("who", .inst "U#2" [])]).map
+          (fun r => match r with | .error .typeErr => 1 | _ => 0),
+        (constructVal {reMatch := fun _ _ => false} exEnv b [("id", .int 3), ("who", .inst "U#1" []), ("n", .str "abcd")]).map
+          (fun r => match r with | .error .valueErr => 1 | _ => 0),
+        (constructVal {reMatch := fun _ _ => false} exEnv b [("who", .inst "U#1" [])]).map
+          (fun r => match r with | .error .typeErr => 1 | _ => 0) ])
+      = some [some 3, some 1, some 1, some 1] := by
+  decide +kernel
+
+/-! ### the state footprint of a use -/
+
+/-- THE STATE FRAME: a use of class `c` (construct, serialize, deserialize, trusted deserialization,
+    structure_to_schema, create_serializer) writes only state owned by `c` or by classes `c` refers to: outside any
+    class set `S ∋ c` closed under "is referred to by a field of", every class entry, every mapper-cache entry and
+    every simplicity-cache entry is exactly what it was, the wrapper registry, the inline-class counter and the
+    global flags are untouched, and no class is added, removed or re-defined -/
+theorem use_state_frame (cfg : Config) (hc : cfg.cachesById = true) (hns : cfg.schemaWritesRequired = false)
+    (S : ClassId → Bool) (w : World) (op : WorldOp) (hcl : SClosed S w)
+    (hop : match op with
+      | .construct c _ | .serialize c _ _ | .deserialize c _ | .trustedDeserialize c _ | .toSchema c
+      | .createSerializer c _ => S c = true
+      | _ => False) :
+    Untouched S w (stepW cfg w op).1 :=
+  use_untouched hc w op hcl hop hns
+
+theorem use_state_frame_today (S : ClassId → Bool) (w : World) (op : WorldOp) (hcl : SClosed S w)
+    (hop : match op with
+      | .construct c _ | .serialize c _ _ | .deserialize c _ | .trustedDeserialize c _ | .toSchema c
+      | .createSerializer c _ => S c = true
+      | _ => False) :
+    Untouched S w (stepW (configOf Generated.registries) w op).1 := by
+  have hs := current_config_safe
+  have hsw : (configOf Generated.registries).schemaWritesRequired = false := by
+    cases hc : configOf Generated.registries with
+    | mk a b b2 c d e => rw [hc] at hs; cases d <;> simp_all [Config.safe]
+  exact use_untouched (cachesById_of_safe _ hs) w op hcl hop hsw
+
+/-- non-vacuity: in the world after the three definitions of `hNested` plus an unrelated class 5,
+    `create_serializer(Order)` changes the entries of Order (2), Premium (1) and Account (0) — the classes Order
+    refers to — and nothing of class 5 -/
+theorem state_frame_example :
+    let cfg := configOf Generated.registries
+    let w := runW cfg World.initial [.define 0 clsAcct, .define 1 clsPrem, .define 2 clsOrder, .define 5 clsS]
+    let w2 := (stepW cfg w (.createSerializer 2 .plain)).1
+    alookup 5 w2.classes = alookup 5 w.classes
+    ∧ alookup (CKey.id 5 false) w2.mapperCache = none
+    ∧ (alookup 2 w2.classes).map (·.serializer.isSome) = some true
+    ∧ (alookup 1 w2.classes).map (·.serializer.isSome) = some true
+    ∧ (alookup 0 w2.classes).map (·.serializer.isSome) = some true
+    ∧ (alookup (CKey.id 1 false) w2.mapperCache).isSome = true
+    ∧ (alookup (CKey.id 0 false) w2.mapperCache).isSome = true := by
+  decide +kernel
 
 end Typedpy.C15
